@@ -105,6 +105,20 @@ def run(ctx, out, tier):
                         m += 1
                     else:
                         out.viol("C19.env", "C19.env|%s" % var, ctx.where(ne, t["span"]), "`%s` is fed from [%s]; expected the value of %s" % (callee_name(t).split("::")[-1], util.origins_text({l for l in labs if l[0] == "const"}, 4), var))
+        # OpenAIConfig::new()/default() reads the ambient OPENAI_API_KEY / OPENAI_ADMIN_KEY /
+        # OPENAI_BASE_URL variables (pinned async-openai, src/config.rs): both overrides must be
+        # applied on every path to the client's construction
+        ncfg = cfg_of(ne)
+        wc = [bi for bi, t in ne.calls() if callee_matches(t, r"async_openai::Client::<C>::with_config$|async_openai::Client::.*with_config$")]
+        for var, sink in ENVS.items():
+            if not sink:
+                continue
+            ss = [bi for bi, t in ne.calls() if callee_matches(t, sink)]
+            if wc and ss and all(any(ncfg.dominates(s, w) for s in ss) for w in wc):
+                m += 1
+            elif wc:
+                out.viol("C19.env", "C19.env|conditional|%s" % var, ctx.where(ne),
+                         "`%s` is not applied on every path to `Client::with_config`: when %s is unset the client keeps async-openai's defaults, which are read from the ambient OPENAI_API_KEY / OPENAI_ADMIN_KEY / OPENAI_BASE_URL variables - a request can be sent with a foreign key instead of failing the run" % (sink.split("::")[-1].rstrip("$"), var))
         ml = ctx.prov.read_local(ne, 0, ("model",))
         if P.has_const(ml, "BLOCKWATCH_AI_MODEL") and not P.has_const(ml, "BLOCKWATCH_AI_API_KEY") and not P.has_const(ml, "BLOCKWATCH_AI_API_URL"):
             m += 1
@@ -128,7 +142,7 @@ def run(ctx, out, tier):
             m += 1
         else:
             out.viol("C19.env", "C19.env|detector", ctx.where(det) if det else "-", "the check-ai detector does not build its client from the environment")
-    out.inst("C19.env", m, 5, ["KEY->with_api_key, URL->with_api_base, MODEL->model; unset key -> ''"])
+    out.inst("C19.env", m, 7, ["KEY->with_api_key, URL->with_api_base, MODEL->model; unset key -> ''"])
 
     # ------------------------------------------------------------------ C19.reply
     r = 0
